@@ -8,7 +8,8 @@ package state
 //@ ghost var pinset map[cid.Cid]api.Pin
 
 //@ interface ReadOnly.Get(ctx, c)
-//@   ensures err == nil ==> res != nil && haskey(pinset, c) && *res == pinset[c] && res.Cid == c
+//@   ensures err == nil ==> res != nil && fresh(res) && haskey(pinset, c) && *res == pinset[c] && res.Cid == c
 //@   ensures err != nil ==> res == nil
 //@   ensures !haskey(pinset, c) ==> err != nil
+//@   ensures err == ErrNotFound ==> !haskey(pinset, c)
 //@   modifies nothing
